@@ -31,8 +31,15 @@ def observe(case):
     registered = k["listed"][k["npublished"]:]
     from decaylanguage import DecFileParser
     p = DecFileParser.from_string(text)
+    mode = k.get("reg_mode", "normal")
     if registered:
-        if k.get("split_registration") and len(registered) > 1:
+        # the names are registered before parsing - in one or two calls, possibly after the grammar has
+        # already been looked at (grammar() / grammar_info() are public and load it)
+        if mode == "after_grammar":
+            p.grammar()
+        elif mode == "after_grammar_info":
+            p.grammar_info()
+        if (k.get("split_registration") or mode == "parse_twice") and len(registered) > 1:
             h = len(registered) // 2
             p.load_additional_decay_models(*registered[:h])
             p.load_additional_decay_models(*registered[h:])
@@ -44,6 +51,8 @@ def observe(case):
         with warnings.catch_warnings():
             warnings.simplefilter("ignore")
             p.parse()
+            if mode == "parse_twice":
+                p.parse()
         ch = p.build_decay_chains("B0sig", stable_particles=k["daughters"])["B0sig"]
         e = ch[0]
         obs["model"] = e["model"]
@@ -121,8 +130,9 @@ def make_cases(rng, deep):
         reg = fam[i:i + 3]
         listed = models + reg
         for w in reg + [rng.choice(models)]:
-            c = case(w, listed=listed, params=rng.choice([[], ["0.5"], ["abc"]]), split_registration=bool(i % 2))
-            c["context"] = "registered names " + ",".join(reg)
+            c = case(w, listed=listed, params=rng.choice([[], ["0.5"], ["abc"]]), split_registration=bool(i % 2),
+                     reg_mode=["normal", "after_grammar", "after_grammar_info", "parse_twice"][len(cases) % 4])
+            c["context"] = "registered names " + ",".join(reg) + " (" + c["reg_mode"] + ")"
         # a published name that has a registered prefix / extension must still be itself
         for w in reg:
             for m in models:
